@@ -71,6 +71,12 @@ pub fn gen_stream_cmds(src: &mut Src) -> Vec<Cmd> {
             2 => { // small transaction
                 cmds.push(vec![b("MULTI")]);
                 for _ in 0..src.below(4) { let k = g.key(src); match src.below(3) { 0 => cmds.push(vec![b("INCR"), k]), 1 => { let v = g.val(src); cmds.push(vec![b("SET"), k, v]); } _ => cmds.push(vec![b("GET"), k]) } }
+                // now and then a command that talks to every shard sits between the others (ordered replies only)
+                if src.chance(1, 4) {
+                    let k = g.key(src); let k2 = g.key(src);
+                    match src.below(4) { 0 => cmds.push(vec![b("FLUSHALL")]), 1 => cmds.push(vec![b("DBSIZE")]), 2 => cmds.push(vec![b("DEL"), k, k2]), _ => { let v = g.val(src); cmds.push(vec![b("MSET"), k, v.clone(), k2, v]); } }
+                    for _ in 0..src.below(3) { let k = g.key(src); if src.chance(1, 2) { let v = g.val(src); cmds.push(vec![b("SET"), k, v]); } else { cmds.push(vec![b("INCR"), k]); } }
+                }
                 cmds.push(vec![b(if src.chance(4, 5) { "EXEC" } else { "DISCARD" })]);
             }
             8 => { // a value of ~9 KB read back 8-11 times in a row: more than 64 KB of replies pending at once
